@@ -42,14 +42,14 @@ func build() []*G {
 
 	b6 := bn256.NewSuite()
 	g1 := mk("bn256-g1", "bn256g1", "modint", "g1", b6.G1(), b6, false, true)
-	g2 := mk("bn256-g2", "", "modint", "g2", b6.G2(), b6, false, false)
+	g2 := mk("bn256-g2", "bn256g2", "modint", "g2", b6.G2(), b6, false, false)
 	gt := mk("bn256-gt", "", "modint", "gt", b6.GT(), b6, false, false)
 	out = append(out, g1, g2, gt)
 	pcache = append(pcache, &P{"bn256", b6, g1, g2, gt})
 
 	b4 := bn254.NewSuite()
 	g1 = mk("bn254-g1", "bn254g1", "modint", "g1", b4.G1(), b4, false, true)
-	g2 = mk("bn254-g2", "", "modint", "g2", b4.G2(), b4, false, true)
+	g2 = mk("bn254-g2", "bn254g2", "modint", "g2", b4.G2(), b4, false, true)
 	gt = mk("bn254-gt", "", "modint", "gt", b4.GT(), b4, false, false)
 	out = append(out, g1, g2, gt)
 	pcache = append(pcache, &P{"bn254", b4, g1, g2, gt})
